@@ -722,6 +722,27 @@ func (env *Env) callExpr(n ECall) (Val, error) {
 		id, ks := mapComps(mt)
 		h := Select(Select(env.st.comp(id+"has", ArraySort(SInt, ArraySort(ks, SBool))), m.L[0], ArraySort(ks, SBool)), k.L[0], SBool)
 		return boolVal(And(Not(Eq(m.L[0], IntLit(0))), h)), nil
+	case "after":
+		// after(label, e): the value of e in the state right after the call at `label` returned
+		if err := argN(2); err != nil {
+			return Val{}, err
+		}
+		lbl, ok := labelOf(n.Args[0])
+		if !ok {
+			return Val{}, fmt.Errorf("bad call label")
+		}
+		if strings.HasSuffix(lbl, "#any") {
+			if r, ok := env.siteSubst[lbl]; ok {
+				lbl = r
+			}
+		}
+		cl := env.e.labels[lbl]
+		if cl == nil || cl.After == nil {
+			return Val{}, &missingSiteError{lbl, env.e.FuncID}
+		}
+		c := *env
+		c.st = cl.After
+		return c.eval(n.Args[1])
 	case "called", "res", "arg", "reached":
 		if len(n.Args) < 1 {
 			return Val{}, fmt.Errorf("%s needs a call label", fname)
